@@ -42,6 +42,8 @@ InitState(rootfh, unstable) ==
    lim     |-> NoLim,
    hist    |-> <<>>,       \* abstract states (objs) after each op since the durability point
    histw   |-> <<>>,       \* object written by that op (0 = other)
+   histn   |-> <<>>,       \* ordinal of the call that produced that state
+   nops    |-> 0,          \* calls processed
    durable |-> (RootId :> MkObj(DIR, rootfh, 1, RootId)),   \* state at the durability point
    sess    |-> EmptyFn,    \* dir ObjId -> enumeration session
    cookies |-> EmptyFn,    \* dir ObjId -> cookies returned so far
@@ -387,7 +389,7 @@ LastWrite(histw, o) ==   \* index of the last history entry that wrote object o 
   LET I == {i \in 1..Len(histw) : histw[i] = o} IN
   IF I = {} THEN 0 ELSE CHOOSE i \in I : \A j \in I : j <= i
 
-Next(s, e) ==
+NextCore(s, e) ==
   IF e.st # "OK" \/ Exp(s, e) = "NOEFF" THEN s
   ELSE
   LET o     == ObjOf(s, e.fh)
@@ -400,14 +402,15 @@ Next(s, e) ==
                       !.next = IF isnew THEN @ + 1 ELSE @,
                       !.issued = IF isnew THEN @ \cup {e.rfh} ELSE @]
       s2 == IF ~chg THEN s1
-            ELSE IF stableAck THEN [s1 EXCEPT !.durable = objs2, !.hist = <<>>, !.histw = <<>>]
-            ELSE [s1 EXCEPT !.hist = Append(@, objs2), !.histw = Append(@, o)]
+            ELSE IF stableAck THEN [s1 EXCEPT !.durable = objs2, !.hist = <<>>, !.histw = <<>>, !.histn = <<>>]
+            ELSE [s1 EXCEPT !.hist = Append(@, objs2), !.histw = Append(@, o), !.histn = Append(@, s.nops + 1)]
       s3 == IF e.proc = "COMMIT"
             THEN LET k == LastWrite(s2.histw, o) IN
                  IF k = 0 THEN s2
                  ELSE [s2 EXCEPT !.durable = s2.hist[k],
                                  !.hist = SubSeq(s2.hist, k + 1, Len(s2.hist)),
-                                 !.histw = SubSeq(s2.histw, k + 1, Len(s2.histw))]
+                                 !.histw = SubSeq(s2.histw, k + 1, Len(s2.histw)),
+                                 !.histn = SubSeq(s2.histn, k + 1, Len(s2.histn))]
             ELSE s2
       s4 == IF chg THEN [s3 EXCEPT !.sess = SessTrack(@, objs2),
                                    !.cookies = [d \in DOMAIN @ \cap DOMAIN objs2 |-> @[d]]]
@@ -422,6 +425,8 @@ Next(s, e) ==
             ELSE IF e.proc \in {"WRITE", "COMMIT"} /\ s5.verf = "" THEN [s5 EXCEPT !.verf = e.rverf]
             ELSE s5
   IN s6
+
+Next(s, e) == [NextCore(s, e) EXCEPT !.nops = s.nops + 1]
 
 (*--------------------------------------------------------------------------*)
 (* Dumps: the whole tree as seen through the API                               *)
@@ -456,6 +461,16 @@ DumpRules(objs, dm) ==
 
 DumpMatches(objs, dm) == DumpRules(objs, dm) = <<>>
 
+(* for diagnostics: the first dumped object that does not match, with what the reference has *)
+DumpBad(objs, dm) ==
+  LET D == dm.objs
+      bad == {i \in 1..Len(D) : DumpObjRules(objs, D[i]) # <<>>}
+  IN IF bad = {} THEN <<>>
+     ELSE LET i == CHOOSE i \in bad : \A j \in bad : i <= j
+              x == Resolve(objs, RootId, D[i].path, 1)
+          IN [path |-> D[i].path, got |-> D[i],
+              want |-> IF x = 0 THEN <<>> ELSE [size |-> SizeOf(objs[x]), data |-> objs[x].data, names |-> DOMAIN objs[x].ents]]
+
 (*--------------------------------------------------------------------------*)
 (* Restart and crash: the state becomes the durable state or any later         *)
 (* acknowledged-unstable prefix; bound from the dump taken after recovery.     *)
@@ -468,7 +483,7 @@ MatchIdx(cands, dm) ==
   IF I = {} THEN 0 ELSE CHOOSE i \in I : \A j \in I : i <= j
 
 AfterRecovery(s, objs) ==
-  [s EXCEPT !.objs = objs, !.durable = objs, !.hist = <<>>, !.histw = <<>>,
+  [s EXCEPT !.objs = objs, !.durable = objs, !.hist = <<>>, !.histw = <<>>, !.histn = <<>>,
             !.sess = EmptyFn, !.boot = @ + 1,
             !.cookies = [d \in DOMAIN @ \cap DOMAIN objs |-> @[d]],
             !.oldverfs = IF s.verf = "" THEN @ ELSE @ \cup {s.verf}, !.verf = ""]
